@@ -88,6 +88,9 @@ def check_ei_point(rec, acq, gp, q, tag):
         rec.violation("raised", f"ExpectedImprovement raised {v!r} / {o!r} at z={z:.3f}", ctx)
         return z
     v, o = float(v), float(o)
+    v2 = guarded(acq, q)
+    if isinstance(v2, Raised) or float(v2) != v:
+        rec.violation("repeated-call-differs", f"two identical evaluations of expected improvement differ: {v!r} then {v2!r}", ctx)
     rec.count("ei:z<-40" if z < -40 else "ei:-40<=z<-3" if z < -3 else "ei:-3<=z<0" if z < 0 else "ei:z>=0")
     # far tail: 1 + z R(z) loses digits by cancellation ~ eps * z^2, so the tolerance follows that
     rel = 1e-8 if z >= -40 else 1e-8 + 4 * np.finfo(float).eps * z * z
